@@ -45,6 +45,20 @@ pub enum FitOut {
     Ok(Fitted),
     Err(String),
     Panic(mc::PanicInfo),
+    /// only from `fit_watched`: no answer within the watchdog time
+    Hang(u64),
+}
+
+/// `fit_raw` on a thread of its own, abandoned after `ms` milliseconds. Used only for the small input
+/// classes in which the library is known to be able to loop (a looping call cannot be stopped, its
+/// thread keeps spinning until the worker process exits — these jobs are scheduled last).
+pub fn fit_watched(x: &Mat, y: &[f64], cfg: &Cfg, max_iter: usize, xp: &Mat, ms: u64) -> FitOut {
+    let (tx, rx) = std::sync::mpsc::channel();
+    let (x2, y2, cfg2, xp2) = (x.clone(), y.to_vec(), cfg.clone(), xp.clone());
+    std::thread::spawn(move || {
+        let _ = tx.send(fit_raw(&x2, &y2, &cfg2, max_iter, &xp2));
+    });
+    rx.recv_timeout(std::time::Duration::from_millis(ms)).unwrap_or(FitOut::Hang(ms))
 }
 
 /// Calls the real estimator (fit, coefficients, intercept, predict) under a panic guard.
@@ -147,7 +161,7 @@ fn fmt_mat(x: &Mat) -> String {
 
 /// Fit once and judge every clause. `label` describes the input for violation lines.
 /// Returns the recovered standardised-space coefficients when the fit succeeded.
-pub fn fit_and_judge(x: &Mat, y_in: &[f64], cfg: &Cfg) -> Option<Judged> {
+pub fn fit_and_judge(x: &Mat, y_in: &[f64], cfg: &Cfg, watchdog_ms: Option<u64>) -> Option<Judged> {
     let est = cfg.est();
     let n = x.len();
     let p = x[0].len();
@@ -160,12 +174,29 @@ pub fn fit_and_judge(x: &Mat, y_in: &[f64], cfg: &Cfg) -> Option<Judged> {
         mc::count(if pr.cond.is_finite() { "design_ill_conditioned_outside_quantifier" } else { "design_rank_deficient_outside_quantifier" });
     }
     let xp = predict_rows(x);
-    let out = fit_raw(x, y_in, cfg, MAX_ITER, &xp);
+    let out = match watchdog_ms {
+        None => fit_raw(x, y_in, cfg, MAX_ITER, &xp),
+        Some(ms) => fit_watched(x, y_in, cfg, MAX_ITER, &xp, ms),
+    };
+    // input class used in site keys (decided from the input alone)
+    let class = if !in_quantifier {
+        "ill-conditioned-design"
+    } else if est == "elasticnet" && mean_nonzero {
+        "target-mean-nonzero"
+    } else if constant_target {
+        "constant-target"
+    } else {
+        "valid-input"
+    };
     let fitted = match out {
         FitOut::Panic(pi) => {
-            let class = if !in_quantifier { "ill-conditioned-design" } else if constant_target { "constant-target" } else { "valid-input" };
             mc::violation(format!("{}.fit:panic:{}", est, class), format!("{}: {}", label(), pi.brief()));
             mc::outcome(mc::hash::h_str("panic"));
+            return None;
+        }
+        FitOut::Hang(ms) => {
+            mc::violation(format!("{}.fit:loops:{}", est, class), format!("{}: fit has not returned after {} ms (a fit of this size takes well under a millisecond) — it loops", label(), ms));
+            mc::outcome(mc::hash::h_str("hang"));
             return None;
         }
         FitOut::Err(e) => {
@@ -173,7 +204,6 @@ pub fn fit_and_judge(x: &Mat, y_in: &[f64], cfg: &Cfg) -> Option<Judged> {
                 mc::count("fit_err_outside_quantifier");
                 return None;
             }
-            let class = if constant_target { "constant-target" } else { "valid-input" };
             mc::violation(format!("{}.fit:error:{}", est, class), format!("{}: fit returned Err(\"{}\") for a valid input (the minimiser is {})", label(), e, if constant_target { "w = 0" } else { "finite" }));
             mc::outcome(mc::hash::h_str("err"));
             return None;
@@ -191,7 +221,6 @@ pub fn fit_and_judge(x: &Mat, y_in: &[f64], cfg: &Cfg) -> Option<Judged> {
         mc::nontrivial();
     }
     if w.iter().any(|t| !t.is_finite()) || !b.is_finite() {
-        let class = if est == "elasticnet" && mean_nonzero { "target-mean-nonzero" } else if constant_target { "constant-target" } else { "valid-input" };
         mc::violation(format!("{}.fit:non-finite:{}", est, class), format!("{}: coefficients {:?} intercept {}", label(), w, b));
         return None;
     }
@@ -211,10 +240,12 @@ pub fn fit_and_judge(x: &Mat, y_in: &[f64], cfg: &Cfg) -> Option<Judged> {
     // ---- mapping back: the model is mean(y) + Z v with v_j = w_j * std_j, so on every training row
     //      X w + b must equal mean(y) + Z v
     let v: Vec<f64> = (0..p).map(|j| w[j] * pr.des.std[j]).collect();
+    // (a column mean carries a rounding error of eps * max|x_ij|, whichever row is looked at)
+    let colmax: Vec<f64> = (0..p).map(|j| x.iter().fold(0.0f64, |m, r| m.max(r[j].abs()))).collect();
     for i in 0..n {
         let model = pr.ybar + oracle::dot(&pr.des.z[i], &v);
         let got = oracle::dot(&x[i], &w) + b;
-        let scale = pr.ybar.abs() + (0..p).map(|j| w[j].abs() * (x[i][j].abs() + pr.des.mean[j].abs())).sum::<f64>() + b.abs();
+        let scale = pr.ybar.abs() + (0..p).map(|j| w[j].abs() * colmax[j]).sum::<f64>() + b.abs();
         if (model - got).abs() > 256.0 * f64::EPSILON * scale + f64::MIN_POSITIVE {
             let class = if cfg.normalize { "normalized" } else { "raw" };
             mc::violation(
@@ -248,13 +279,7 @@ pub fn fit_and_judge(x: &Mat, y_in: &[f64], cfg: &Cfg) -> Option<Judged> {
         bucket((f - opt.f) / (cfg.tol * opt.f));
     }
     if !(f <= opt.f + slack) {
-        let class = if est == "elasticnet" && mean_nonzero {
-            "target-mean-nonzero".to_string()
-        } else if constant_target {
-            "constant-target".to_string()
-        } else {
-            format!("{}:{}", if cfg.normalize { "normalized" } else { "raw" }, regime)
-        };
+        let class = if class == "valid-input" { format!("{}:{}", if cfg.normalize { "normalized" } else { "raw" }, regime) } else { class.to_string() };
         mc::violation(
             format!("{}.objective:{}", est, class),
             format!(
@@ -280,14 +305,20 @@ pub fn fit_and_judge(x: &Mat, y_in: &[f64], cfg: &Cfg) -> Option<Judged> {
 /// One complete case: `y_base` shifted by `cfg.shift`; for the elastic net with a non-zero shift
 /// the unshifted problem is fitted too and the two fits are compared (same coefficients, intercept
 /// moved by exactly the shift).
-pub fn case(x: &Mat, y_base: &[f64], cfg: &Cfg) {
+pub fn case(x: &Mat, y_base: &[f64], cfg: &Cfg, watchdog_ms: Option<u64>, ctarget_job: bool) {
     let y_in: Vec<f64> = y_base.iter().map(|v| v + cfg.shift).collect();
-    let shifted = fit_and_judge(x, &y_in, cfg);
+    if !ctarget_job && y_in.iter().all(|v| *v == y_in[0]) {
+        // constant targets make the library loop (known finding); that input class is enumerated by
+        // the dedicated `ctarget` jobs under a watchdog, everything else here
+        mc::count("constant_target_left_to_ctarget_jobs");
+        return;
+    }
+    let shifted = fit_and_judge(x, &y_in, cfg, watchdog_ms);
     if cfg.shift == 0.0 {
         return;
     }
     mc::count("shifted_target_cases");
-    if cfg.l1_ratio.is_none() {
+    if cfg.l1_ratio.is_none() || ctarget_job {
         return;
     }
     let Some(js) = shifted else { return };
@@ -298,7 +329,11 @@ pub fn case(x: &Mat, y_base: &[f64], cfg: &Cfg) {
         return;
     }
     let xp = predict_rows(x);
-    let FitOut::Ok(fb) = fit_raw(x, y_base, &base_cfg, MAX_ITER, &xp) else { return };
+    let base_out = match watchdog_ms {
+        None => fit_raw(x, y_base, &base_cfg, MAX_ITER, &xp),
+        Some(ms) => fit_watched(x, y_base, &base_cfg, MAX_ITER, &xp, ms),
+    };
+    let FitOut::Ok(fb) = base_out else { return };
     if fb.w.iter().any(|t| !t.is_finite()) || !fb.b.is_finite() {
         return;
     }
@@ -314,10 +349,9 @@ pub fn case(x: &Mat, y_base: &[f64], cfg: &Cfg) {
     let bound = slack_b.sqrt() + slack_s.sqrt();
     let d: Vec<f64> = (0..p).map(|j| js.v[j] - vb[j]).collect();
     let zd: f64 = pr.des.z.iter().map(|r| oracle::dot(r, &d).powi(2)).sum::<f64>() + pr.l2 * refs::sq_norm(&d);
-    let class = if pr.ybar != 0.0 { "base-mean-nonzero" } else { "base-mean-zero" };
     if !(zd.sqrt() <= bound) {
         mc::violation(
-            format!("elasticnet.shift:coefficients-change:{}", class),
+            "elasticnet.shift:coefficients-change",
             format!(
                 "X={:?} y={:?} alpha={} l1_ratio={:?} normalize={} tol={}: fit(y) gives w={:?}, fit(y+{}) gives coefficients differing by {:?} in the space of the objective (||Z d|| = {:.3e}, allowed {:.3e})",
                 x,
@@ -340,7 +374,7 @@ pub fn case(x: &Mat, y_base: &[f64], cfg: &Cfg) {
     let allow = bound / smin * ms + 256.0 * f64::EPSILON * (cfg.shift.abs() + js.b.abs() + fb.b.abs());
     if !((js.b - fb.b - cfg.shift).abs() <= allow) {
         mc::violation(
-            format!("elasticnet.shift:intercept:{}", class),
+            "elasticnet.shift:intercept",
             format!("X={:?} y={:?} alpha={} l1_ratio={:?} normalize={} tol={}: intercept {} for y, {} for y+{} (difference {} instead of {}, allowed deviation {:.3e})", x, y_base, cfg.alpha, cfg.l1_ratio, cfg.normalize, cfg.tol, fb.b, js.b, cfg.shift, js.b - fb.b, cfg.shift, allow),
         );
     }
